@@ -63,13 +63,32 @@ def _gen(rng, tier):
     pure_past = rng.random() < 0.2
     ops = set(common.PAST_OPS if pure_past else common.BOUNDED_FUTURE_OPS)
     cfg = sg.GenCfg(vars=vars_, ops=ops, max_depth=rng.randint(2, 6 if big else 5), max_bound=rng.choice([1, 2, 3, 4] + ([6] if big else [])),
-                    p_reuse=rng.choice([0.0, 0.0, 0.2]))
+                    p_reuse=rng.choice([0.0, 0.0, 0.2]), p_loose=rng.choice([0.08, 0.08, 0.5]))
     ast = sg.gen_formula(rng, cfg)
     if not pure_past and rng.random() < 0.5 and sg.horizon(ast) > 0:
         # force a sibling with a different horizon
         other = sg.gen_formula(rng, sg.GenCfg(vars=vars_, ops=ops, max_depth=2, max_bound=2))
         ast = [rng.choice(['and', 'or', 'implies']), ast, other] if rng.random() < 0.5 else \
               [rng.choice(['and', 'or', 'implies']), other, ast]
+    if not pure_past and rng.random() < 0.06:
+        # directed: arithmetic whose operands need different delays (the grammar is untyped: x / (abs(eventually[0,2] y) + 1))
+        def fut(depth):
+            o = rng.choice(['eventually_b', 'always_b', 'next'])
+            x = ['var', rng.choice(vars_)] if depth <= 0 or rng.random() < 0.6 else fut(depth - 1)
+            if o == 'next':
+                return ['next', x]
+            lo = rng.randint(0, 2)
+            return [o, lo, lo + rng.randint(0, 2), x]
+        t1 = ['var', rng.choice(vars_)] if rng.random() < 0.6 else fut(1)
+        t2 = fut(1)
+        op = rng.choice(['+', '-', '*', '/', '/'])
+        if op == '/':
+            t2 = ['+', ['abs', t2], ['const', 1.0]]
+        if rng.random() < 0.3 and op != '/':
+            t1, t2 = t2, t1
+        ast = ['pred', rng.choice(sg.CMPS), [op, t1, t2], ['const', rng.choice(sg.LATTICE)]]
+        if rng.random() < 0.4:
+            ast = [rng.choice(['and', 'or']), ast, sg.gen_formula(rng, sg.GenCfg(vars=vars_, ops=ops, max_depth=2, max_bound=2))]
     modular = rng.random() < 0.25
     shared = None
     if modular and not pure_past and rng.random() < 0.5:
